@@ -309,6 +309,14 @@ var FixedFamilies20 = func() []Family20 {
 	add("trailing-spaces", "http://h/", " ", "", "", "parse")
 	add("port-digits", "http://h:", "0", "80/", "", "parse")
 	add("port-digits-big", "http://h:", "9", "/", "", "parse")
+	// many non-fatal validation errors under the reporting parser
+	add("report-bad-escapes", "http://h/", "%zz", "", "", "report")
+	add("report-backslashes", "http://h", "\\a", "", "", "report")
+	add("report-fragment-spaces", "http://h/#", " ", "x", "", "report")
+	add("report-extra-slashes", "http:", "/", "h/", "", "report")
+	add("report-query-junk", "http://h/?", "^", "", "", "report")
+	add("report-opaque-junk", "foo:", "\\", "", "", "report")
+	add("report-credentials", "http://", "a@", "h/", "", "report")
 	add("no-scheme", "", "a", "", "", "parse", "gsb", "semantic")
 	add("relative-long-ref", "", "a/", "", "http://h/b/c", "parse")
 	add("relative-vs-long-base", "x", "", "", "http://h{N}", "parse")
